@@ -23,11 +23,26 @@ def tla_seq(xs):
 
 def cfg_to_tla(c):
     loads = ", ".join("%s |-> %s" % (m, tla_seq(ds)) for m, ds in sorted(c["loads"].items()))
-    return "[loads |-> [%s], roots |-> %s, bad |-> %s]" % (loads, tla_seq(c["roots"]), tla_seq(c["bad"]))
+    return "[loads |-> [%s], roots |-> %s, bad |-> %s, nofetch |-> %s]" % (
+        loads, tla_seq(c["roots"]), tla_seq(c["bad"]), tla_seq(c.get("nofetch") or []))
 
 
-def mk(loads, roots, bad=()):
-    return {"loads": {k: list(v) for k, v in loads.items()}, "roots": list(roots), "bad": list(bad)}
+def mk(loads, roots, bad=(), kinds=None, spell=None):
+    """kinds: how a bad leaf helper fails other than by fail() in its body: missing | syntax | nofetch"""
+    kinds = dict(kinds or {})
+    for m, k in kinds.items():
+        assert m in bad and not loads[m] and m not in roots, (m, k)
+    c = {"loads": {k: list(v) for k, v in loads.items()}, "roots": list(roots), "bad": list(bad),
+         "nofetch": sorted(m for m, k in kinds.items() if k == "nofetch")}
+    if kinds:
+        c["kinds"] = kinds
+    if spell:
+        c["spell"] = dict(spell)     # package modules that are loaded by their package label ("//p2")
+    return c
+
+
+def shape_key(c):
+    return json.dumps({k: c.get(k) or [] for k in ("loads", "roots", "bad", "nofetch")}, sort_keys=True)
 
 
 CURATED = [
@@ -46,6 +61,17 @@ CURATED = [
     mk({"p1": ["m1", "m2"], "p2": ["m2"], "m1": [], "m2": []}, ["p1", "p2"], bad=["m1"]),
     mk({"p1": ["m1"], "p2": ["m2"], "m1": ["m3"], "m2": ["m3"], "m3": []}, ["p1", "p2"], bad=["p2"]),
     mk({"p1": ["m1", "m2"], "p2": ["m2", "m1"], "m1": [], "m2": []}, ["p1", "p2"]),  # opposite load orders
+    # packages that load another package's build file, by either spelling of its label
+    mk({"p1": ["p2"], "p2": []}, ["p1", "p2"]),
+    mk({"p1": ["p2"], "p2": ["m1"], "m1": []}, ["p1", "p2"], spell={"p2": "short"}),
+    mk({"p1": ["p3"], "p2": ["p3"], "p3": []}, ["p1", "p2", "p3"], spell={"p3": "short"}),
+    mk({"p1": ["p2"], "p2": ["p1"]}, ["p1", "p2"], spell={"p1": "short"}),
+    # a shared helper that cannot be read / parsed / fetched
+    mk({"p1": ["m1"], "p2": ["m1"], "m1": []}, ["p1", "p2"], bad=["m1"], kinds={"m1": "missing"}),
+    mk({"p1": ["m1"], "p2": ["m1"], "m1": []}, ["p1", "p2"], bad=["m1"], kinds={"m1": "syntax"}),
+    mk({"p1": ["m1"], "p2": ["m1"], "m1": []}, ["p1", "p2"], bad=["m1"], kinds={"m1": "nofetch"}),
+    mk({"p1": ["m2"], "p2": ["m2"], "p3": ["m1"], "m2": ["m1"], "m1": []}, ["p1", "p2", "p3"], bad=["m1"], kinds={"m1": "nofetch"}),
+    mk({"p1": ["m2", "m1"], "p2": ["m1"], "m2": [], "m1": []}, ["p1", "p2"], bad=["m1"], kinds={"m1": "missing"}),
     mk({"p1": ["m1"], "p2": [], "m1": []}, ["p1", "p2"]),
 ]
 
@@ -63,7 +89,18 @@ def random_cfg(rnd, nroots=None, nlibs=None, cyclic_ok=True, p_bad=0.15):
         k = rnd.choice([0, 0, 1, 1, 2])
         loads[m] = rnd.sample(cand, min(k, len(cand)))
     bad = [m for m in roots + libs if rnd.random() < p_bad / 2] if rnd.random() < p_bad * 2 else []
-    return mk(loads, roots, bad)
+    kinds = {}
+    for m in bad:
+        if m in libs and rnd.random() < 0.6:
+            loads[m] = []
+            kinds[m] = rnd.choice(["missing", "syntax", "nofetch"])
+    spell = {}
+    if nroots > 1 and rnd.random() < 0.25:
+        a, b = rnd.sample(roots, 2)
+        loads[a] = loads[a] + [b]
+        if rnd.random() < 0.6:
+            spell[b] = "short"
+    return mk(loads, roots, bad, kinds, spell)
 
 
 def design_cfgs(tier, rnd):
@@ -79,10 +116,15 @@ def design_cfgs(tier, rnd):
     return res
 
 
+# which variant of module.load the design spec models when module.env fails: "done" after the
+# repair (defect 15), "nodone" before it
+ENVFAIL = os.environ.get("VERIF_MODLOAD_ENVFAIL", "done")
+
+
 def design_check(cfgs, walk):
     body = "---- MODULE MCModGen ----\nEXTENDS ModLoad\nMCCfgs == {\n  " + ",\n  ".join(cfg_to_tla(c) for c in cfgs) + "\n}\n====\n"
-    cfgtxt = ("SPECIFICATION Spec\nCONSTANTS\n  Cfgs <- MCCfgs\n  Walk = \"%s\"\nINVARIANTS NoViolation OnceOnly EdgesOK\n"
-              "PROPERTY Termination\nVIEW View\nCHECK_DEADLOCK TRUE\n" % walk)
+    cfgtxt = ("SPECIFICATION Spec\nCONSTANTS\n  Cfgs <- MCCfgs\n  Walk = \"%s\"\n  EnvFail = \"%s\"\nINVARIANTS NoViolation OnceOnly EdgesOK\n"
+              "PROPERTY Termination\nVIEW View\nCHECK_DEADLOCK TRUE\n" % (walk, ENVFAIL))
     rc, out, wd = vlib.tlc(SPEC, "MCModGen", cfg="MCModGen.cfg", workers=16, timeout=2400, heap="12g",
                            files={"MCModGen.tla": body, "MCModGen.cfg": cfgtxt})
     gen, dist = vlib.tlc_stats(out)
@@ -92,7 +134,8 @@ def design_check(cfgs, walk):
 
 def gen_schedules(cfgs, num, sd, walk):
     body = "---- MODULE MCGen ----\nEXTENDS ModLoadGen\nGenCfgs == {\n  " + ",\n  ".join(cfg_to_tla(c) for c in cfgs) + "\n}\n====\n"
-    cfgtxt = "SPECIFICATION GenSpec\nCONSTANTS\n  Cfgs <- GenCfgs\n  Walk = \"%s\"\nCHECK_DEADLOCK FALSE\n" % walk
+    cfgtxt = "SPECIFICATION GenSpec\nCONSTANTS\n  Cfgs <- GenCfgs\n  Walk = \"%s\"\n  EnvFail = \"%s\"\nCHECK_DEADLOCK FALSE\n" % (walk, ENVFAIL)
+    by_shape = {shape_key(c): c for c in cfgs}
     rc, out, wd = vlib.tlc(SPEC, "MCGen", cfg="MCGen.cfg", workers=1, timeout=600, heap="3g",
                            files={"MCGen.tla": body, "MCGen.cfg": cfgtxt},
                            args=["-simulate", "num=%d" % num, "-depth", "1500", "-seed", str(sd), "-deadlock"])
@@ -100,7 +143,8 @@ def gen_schedules(cfgs, num, sd, walk):
     for h in vlib.tlc_prints(out, "HIST"):
         if isinstance(h, dict):
             c = h["cfg"]
-            res.append((mk(c["loads"], c["roots"], c.get("bad") or []), list(h["h"]), h.get("end")))
+            c = {"loads": c["loads"], "roots": list(c["roots"]), "bad": list(c.get("bad") or []), "nofetch": list(c.get("nofetch") or [])}
+            res.append((by_shape.get(shape_key(c), c), list(h["h"]), h.get("end")))
     if not res:
         raise Inconclusive("TLC generated no module-load schedules:\n" + out[-2000:])
     return res
@@ -201,7 +245,7 @@ def pipeline(tier):
     dl = [{"id": t["id"], "cfg": t["cfg"], "steps": t["steps"], "events": to_p_line(t)["events"]} for t in sample]
     res["drift_checked"] = len(dl)
     try:
-        cfgtxt = "SPECIFICATION TSpec\nCONSTANTS\n  Cfgs = {}\n  Walk = \"%s\"\nINVARIANTS Done DInvariants\nCHECK_DEADLOCK FALSE\n" % WALK
+        cfgtxt = "SPECIFICATION TSpec\nCONSTANTS\n  Cfgs = {}\n  Walk = \"%s\"\n  EnvFail = \"%s\"\nINVARIANTS Done DInvariants\nCHECK_DEADLOCK FALSE\n" % (WALK, ENVFAIL)
         open(os.path.join(wd, "ModLoadTraceD.cfg"), "w").write(cfgtxt)
         dv = vlib.eval_drift(SPEC, "ModLoadTraceD", os.path.join(wd, "ModLoadTraceD.cfg"), dl)
         res["drift_count"], res["drift"] = len(dv), dv[:10]
